@@ -193,8 +193,12 @@ pub fn path_feasible(name: &str, p: &PathInfo) -> bool {
 /// Explore every path of `body` (all decisions labelled `label` are flipped, up to `d` flips) and require
 /// that on every *feasible* path the result equals `expect`: a path with another result must have an
 /// unsatisfiable path condition.
-pub fn forced_result(name: &str, key: &str, mode: DrawMode, seed: u64, label: &str, d: usize, expect: bool, mut body: impl FnMut() -> bool) -> usize {
-    let st = explore(mode, seed, d, 256, &[label], |p| {
+pub fn forced_result(name: &str, key: &str, mode: DrawMode, seed: u64, label: &str, d: usize, expect: bool, body: impl FnMut() -> bool) -> usize {
+    forced_result_labels(name, key, mode, seed, &[label], d, expect, body)
+}
+/// like `forced_result`, flipping the decisions of several labels (e.g. prover-side branches and verifier checks)
+pub fn forced_result_labels(name: &str, key: &str, mode: DrawMode, seed: u64, labels: &[&str], d: usize, expect: bool, mut body: impl FnMut() -> bool) -> usize {
+    let st = explore(mode, seed, d, 256, labels, |p| {
         let res = body();
         if res != expect {
             if p.flips.is_empty() {
